@@ -6,6 +6,7 @@ import (
 	"math"
 	"os"
 	"reflect"
+	"runtime"
 	"strings"
 	"unicode/utf8"
 
@@ -1233,6 +1234,174 @@ func c08RawBytes(ctx *core.Ctx) {
 	}
 }
 
+// ---- protobuf-only shapes, scaled -----------------------------------------------------------
+
+// protoShape builds a model no DSL text can produce: several direct assignments under one operator, restriction lists that
+// repeat one entry, operators nested without need. The printer rejects most of them - after having done its work - and the
+// graph builders accept them.
+func protoShape(shape string, n int) *openfgav1.AuthorizationModel {
+	u := ref.Restriction{Type: "user"}
+	rep := func(x ref.Restriction, k int) []ref.Restriction {
+		out := make([]ref.Restriction, k)
+		for i := range out {
+			out[i] = x
+		}
+		return out
+	}
+	this := func(k int) []*ref.Rewrite {
+		out := make([]*ref.Rewrite, k)
+		for i := range out {
+			out[i] = ref.T()
+		}
+		return out
+	}
+	var rel ref.Relation
+	switch shape {
+	case "union of n direct assignments, n times the same restriction":
+		rel = ref.Relation{Name: "a", Rw: &ref.Rewrite{Kind: ref.Union, Ch: this(n)}, Restr: rep(u, n)}
+	case "intersection of n direct assignments, n restrictions alternating plain and conditioned":
+		rs := make([]ref.Restriction, n)
+		for i := range rs {
+			rs[i] = u
+			if i%2 == 1 {
+				rs[i].Condition = "k"
+			}
+		}
+		rel = ref.Relation{Name: "a", Rw: &ref.Rewrite{Kind: ref.Inter, Ch: this(n)}, Restr: rs}
+	case "one direct assignment, n times the same userset restriction":
+		rel = ref.Relation{Name: "a", Rw: ref.T(), Restr: append(rep(ref.Restriction{Type: "doc", Relation: "b"}, n), u)}
+	case "n unary unions around one direct assignment":
+		rw := ref.T()
+		for i := 0; i < n; i++ {
+			rw = &ref.Rewrite{Kind: ref.Union, Ch: []*ref.Rewrite{rw}}
+		}
+		rel = ref.Relation{Name: "a", Rw: rw, Restr: []ref.Restriction{u}}
+	case "union of n times the same computed relation and n times the same tuple to userset":
+		var ch []*ref.Rewrite
+		for i := 0; i < n; i++ {
+			ch = append(ch, ref.C("b"), ref.TT("b", "p"))
+		}
+		rel = ref.Relation{Name: "a", Rw: &ref.Rewrite{Kind: ref.Union, Ch: ch}}
+	default:
+		panic("protoShape: " + shape)
+	}
+	return ref.ToProto(&ref.Model{Schema: "1.1", Types: []ref.TypeDef{{Name: "user"}, {Name: "doc", Rels: []ref.Relation{
+		rel,
+		{Name: "b", Rw: ref.T(), Restr: []ref.Restriction{u}},
+		{Name: "p", Rw: ref.T(), Restr: []ref.Restriction{{Type: "doc"}}},
+	}}}, Conds: []ref.Condition{{Name: "k", Params: []ref.Param{{Name: "x", Type: "int"}}, Expr: "x < 1"}}})
+}
+
+var protoShapes = []string{
+	"union of n direct assignments, n times the same restriction",
+	"intersection of n direct assignments, n restrictions alternating plain and conditioned",
+	"one direct assignment, n times the same userset restriction",
+	"n unary unions around one direct assignment",
+	"union of n times the same computed relation and n times the same tuple to userset",
+}
+
+var protoStages = []struct {
+	name string
+	f    func(pm *openfgav1.AuthorizationModel) (bool, error)
+}{
+	{"TransformJSONProtoToDSL", func(pm *openfgav1.AuthorizationModel) (bool, error) {
+		s, e := transformer.TransformJSONProtoToDSL(pm)
+		return s != "", e
+	}},
+	{"NewAuthorizationModelGraph", func(pm *openfgav1.AuthorizationModel) (bool, error) {
+		g, e := graph.NewAuthorizationModelGraph(pm)
+		if e == nil {
+			_ = g.GetDOT()
+			if r, e2 := g.Reversed(); e2 == nil {
+				_ = r.GetDOT()
+			}
+			g.GetCycles()
+		}
+		return g != nil, e
+	}},
+	{"WeightedAuthorizationModelGraphBuilder.Build", func(pm *openfgav1.AuthorizationModel) (bool, error) {
+		g, e := graph.NewWeightedAuthorizationModelGraphBuilder().Build(pm)
+		return g != nil, e
+	}},
+}
+
+// c08ProtoShapeOne measures one shape through one stage at doubling sizes. Work is measured twice: in instrumented steps, and
+// in bytes allocated (runtime.MemStats.TotalAlloc: monotonic, unaffected by garbage collection) - the steps do not see the
+// copying behind string concatenation and append, which is where a quadratic term per item hides.
+func c08ProtoShapeOne(ctx *core.Ctx, shape string, si int) {
+	st := protoStages[si]
+	var prevSteps, prevBytes int64
+	var prevSize float64
+	sizes := []int{16, 32, 64, 128}
+	if ctx.Thorough() {
+		sizes = append(sizes, 256)
+	}
+	// growth is judged against the part of the wire size that grows with n (the fixed part - the other types and relations -
+	// would make a quadratic cost look steeper at small n)
+	base := float64(proto.Size(protoShape(shape, 0)))
+	for _, n := range sizes {
+		pm := protoShape(shape, n)
+		size := float64(proto.Size(pm)) - base
+		var ms0, ms1 runtime.MemStats
+		runtime.ReadMemStats(&ms0)
+		o := c08Call(func() (bool, error) { return st.f(pm) })
+		runtime.ReadMemStats(&ms1)
+		bytes := int64(ms1.TotalAlloc - ms0.TotalAlloc)
+		ctx.Trans(1)
+		ctx.Eval(1)
+		cs := c08Case{Entry: "proto-shape", Mut: shape, N: n, Ctx: si}
+		if o.panic != nil || o.hang {
+			kind := "panic"
+			if o.hang {
+				kind = "step-horizon-exceeded"
+			}
+			ctx.Violation(kind, fmt.Sprintf("protobuf shape (%s) with n=%d (%.0f bytes) through %s: panic=%v, step horizon (%d) exceeded=%v", shape, n, size, st.name, o.panic, int64(c08Horizon), o.hang), cs, "", "")
+			return
+		}
+		if o.result == (o.err != nil) {
+			ctx.Violation("result-xor-error", fmt.Sprintf("protobuf shape (%s) with n=%d through %s: result=%v err=%v", shape, n, st.name, o.result, o.err), cs, "", "")
+			return
+		}
+		if os.Getenv("VERIF_DEBUG_SCALED") != "" {
+			fmt.Fprintf(os.Stderr, "PROTOSHAPE %q %s n=%d size=%.0f steps=%d bytes=%d err=%v\n", shape, st.name, n, size, o.steps, bytes, o.err != nil)
+		}
+		if prevSize > 0 {
+			growth := math.Log2(size / prevSize)
+			if prevSteps > 2000 {
+				if exp := math.Log2(float64(o.steps)/float64(prevSteps)) / growth; exp > 2.5 {
+					ctx.Violation("super-quadratic", fmt.Sprintf("protobuf shape (%s) through %s: %d steps at n=%d, %d at n=%d (exponent %.2f against the growing part of the wire size)", shape, st.name, prevSteps, n/2, o.steps, n, exp), cs, "<= 2.5", fmt.Sprintf("%.2f", exp))
+					return
+				}
+			}
+			if prevBytes > 1<<20 {
+				if exp := math.Log2(float64(bytes)/float64(prevBytes)) / growth; exp > 2.5 {
+					ctx.Violation("super-quadratic", fmt.Sprintf("protobuf shape (%s) through %s: %d bytes allocated at n=%d, %d at n=%d (exponent %.2f against the growing part of the wire size)", shape, st.name, prevBytes, n/2, bytes, n, exp), cs, "<= 2.5", fmt.Sprintf("%.2f", exp))
+					return
+				}
+			}
+		}
+		prevSteps, prevBytes, prevSize = o.steps, bytes, size
+	}
+	ctx.Flag("c08:proto-shapes")
+}
+
+func c08ProtoShapes(ctx *core.Ctx) {
+	k := 0
+	for _, shape := range protoShapes {
+		for si := range protoStages {
+			k++
+			if !ctx.Mine(k) {
+				continue
+			}
+			if ctx.Expired() {
+				ctx.Cap("wall-clock cap in the protobuf shapes")
+				return
+			}
+			c08ProtoShapeOne(ctx, shape, si)
+		}
+	}
+}
+
 // ---- JSON and YAML texts ------------------------------------------------------------
 
 var jsonTokens = []string{"{", "}", "[", "]", ":", ",", `"schema_version"`, `"type_definitions"`, `"type"`, `"relations"`, `"this"`, `"union"`, `"child"`,
@@ -1395,6 +1564,15 @@ func c08Corpus(ctx *core.Ctx) {
 		ctx.Count("corpus_documents", len(docs))
 	}
 	base := 1 << 26
+	// three complete documents of my own (every construct of the grammar) with all their single mutations, in every tier
+	for _, t := range rawByteDocs {
+		gen.CorpusMutations(t, gen.DSLLexemesSmall, func(i int, s string) {
+			if ctx.Mine(base + i) {
+				c08Text(ctx, s)
+			}
+		})
+		base += 1 << 18
+	}
 	for di, d := range docs {
 		if ctx.Expired() {
 			ctx.Cap("wall-clock cap in corpus mutations")
@@ -1455,6 +1633,7 @@ func c08Run(ctx *core.Ctx) {
 	c08JSONYAML(ctx)
 	c08RawBytes(ctx)
 	c08Scaled(ctx)
+	c08ProtoShapes(ctx)
 	c08Nested(ctx)
 	c08Pump(ctx)
 	c08MergeSets(ctx)
@@ -1498,7 +1677,7 @@ func init() {
 		Technique: "bounded exhaustive enumeration of texts and of protobuf fault combinations with a panic guard and a deterministic step-count horizon",
 		Run:       c08Run,
 		Finish: func(r *core.Result) error {
-			for _, f := range []string{"c08:steps-live", "c08:some-error", "c08:some-result", "c08:unlexable-rejected", "c08:fault-enumeration", "c08:pumped", "c08:json-replacement", "c08:module-file-sets", "c08:corpus-mutations", "c08:scaled-families", "c08:scaled-accepted", "c08:scaled-rejected", "c08:start-orders", "c08:nested-pumped", "c08:nested-accepted", "c08:raw-bytes", "c08:raw-unlexable-rejected", "c08:raw-accepted", "c08:raw-pumped", "c08:module-unreadable-file", "c08:module-merged"} {
+			for _, f := range []string{"c08:steps-live", "c08:some-error", "c08:some-result", "c08:unlexable-rejected", "c08:fault-enumeration", "c08:pumped", "c08:json-replacement", "c08:module-file-sets", "c08:corpus-mutations", "c08:scaled-families", "c08:scaled-accepted", "c08:scaled-rejected", "c08:start-orders", "c08:nested-pumped", "c08:nested-accepted", "c08:raw-bytes", "c08:raw-unlexable-rejected", "c08:raw-accepted", "c08:raw-pumped", "c08:module-unreadable-file", "c08:module-merged", "c08:proto-shapes"} {
 				if !r.Flags[f] {
 					return fmt.Errorf("C08: guard %q never exercised", f)
 				}
@@ -1523,6 +1702,8 @@ func init() {
 				}
 			case cs.Entry == "module-consistency":
 				c08ModuleConsistency(ctx, cs.Text)
+			case cs.Entry == "proto-shape":
+				c08ProtoShapeOne(ctx, cs.Mut, cs.Ctx)
 			case cs.Entry == "scaled":
 				c08ScaledOne(ctx, cs.Mut)
 			case cs.Entry == "TransformJSONStringToDSL":
